@@ -17,7 +17,7 @@ LEVEL = "model_checking"
 RULE = ("full product kind (string, date, date-time, uuid, integer, number, boolean, enum, int enum, literal enums, const, union, any, "
         "reference to enum) x JSON default value (well- and ill-typed, 20 values) x route (direct, $ref wrapper with sibling default, "
         "overridden in an allOf member, inherited from an allOf parent) x position (model property, query, header, cookie); "
-        "non-trivial = the case reached the three-valued reference table; kinds include enums admitting null (3 notations); values include integers beyond 2^53 and containers holding booleans / null; valid defaults also on REQUIRED properties declared before / after a required property without default")
+        "non-trivial = the case reached the three-valued reference table; kinds include enums admitting null (3 notations); values include integers beyond 2^53 and containers holding booleans / null; valid defaults also on REQUIRED properties declared before / after a required property without default; routes include the 3.0 nullable-reference wrapper with a sibling default, an inherited default re-declared with a description only, a second inline enum resolving to an existing class; parameter defaults are compared through all four call variants with the argument omitted")
 FLOOR = 0.5
 ASSUMPTIONS = ["RM-default: VALID(expected typed value) / INVALID(diagnostic, not emitted) / LENIENT(either, never a wrongly typed emission)"]
 
